@@ -57,6 +57,9 @@ func (m *Mutex) Lock() {
 		return
 	}
 	if s.aborting {
+		if goid() != s.schedG {
+			s.exitIfTask()
+		}
 		return
 	}
 	me := s.self()
